@@ -58,11 +58,25 @@ class Recorder(object):
             return 0.5 * (math.sin(math.pi * (-0.5 + frac)) + 1.0)
         return 1.0
 
+    def nom_by_step(self, n):
+        """The nominal step in force for step n: the last proposal the
+        integrator has for steps 0..n (a function of the state of the
+        simulation, not of how often the solver asked)."""
+        nom = self.case['dt0']
+        if self.case['adaptive']:
+            for p in self.case['props'][:n + 1]:
+                if p:
+                    nom = p
+        return nom
+
     def event(self, ev, t, dt, count):
-        lim = self.cur_nom * self.damp(self.nsteps)
+        nom = self.cur_nom
+        if ev in ('pre', 'step'):
+            nom = self.nom_by_step(self.nsteps)
+        lim = nom * self.damp(self.nsteps)
         self.log.append(dict(ev=ev, t=self.quant(t), dt=self.quant(dt),
                              count=int(count), lim=self.quant(lim),
-                             nom=self.quant(self.cur_nom), pos=bool(dt > 0)))
+                             nom=self.quant(nom), pos=bool(dt > 0)))
 
     def step(self, t, dt):
         if len(self.log) > 20000:
@@ -77,8 +91,9 @@ class Recorder(object):
         self.nsteps += 1
 
     def propose(self, dt, cfl):
+        # what the integrator allows depends on the step about to be taken
         props = self.case['props']
-        k = self.ncalls
+        k = self.nsteps
         self.ncalls += 1
         p = props[k] if k < len(props) else 0
         if p:
@@ -100,29 +115,42 @@ def run_case(case):
                output_at_times=list(case['outs']))
     s.particles = []
     s.set_print_freq(case['pfreq'])
-    s.set_max_steps(case['maxsteps'])
+    resume = case.get('resume')
+    s.set_max_steps(resume if resume else case['maxsteps'])
     s.add_pre_step_callback(rec.pre)
     s.add_post_step_callback(rec.post)
     old = solver_mod.dump
     solver_mod.dump = rec.dump
     err = None
+    mark = t1 = c1 = None
     try:
         s.solve(show_progress=False)
+        if resume:
+            # max_steps stopped the run (or tf was reached): raise the limit
+            # and call solve() again on the same solver
+            mark, t1, c1 = len(rec.log), s.t, s.count
+            s.set_max_steps(case['maxsteps'])
+            s.solve(show_progress=False)
     except Exception as ex:  # the property says solve() terminates
         err = '%s: %s' % (type(ex).__name__, ex)
     finally:
         solver_mod.dump = old
-    q = case['q']
     tr = dict(id=case['id'], exact=bool(case.get('exact', False)),
               e=int(case.get('e', 0)),
               tf=rec.quant(case['tf']), dt0=rec.quant(case['dt0']),
               pfreq=case['pfreq'], outs=[rec.quant(x) for x in case['outs']],
               ndamp=case['ndamp'], adaptive=bool(case['adaptive']),
               props=[rec.quant(x) for x in case['props']],
-              maxsteps=case['maxsteps'], log=rec.log)
+              maxsteps=case['maxsteps'], t0=0, c0=0, log=rec.log)
     if err:
         tr['error'] = err
-    return tr
+        return [tr]
+    if mark is None:
+        return [tr]
+    tr2 = dict(tr, id=case['id'] + '+r', exact=False, t0=rec.quant(t1),
+               c0=int(c1), log=rec.log[mark:])
+    tr.update(maxsteps=resume, log=rec.log[:mark])
+    return [tr, tr2]
 
 
 def main():
@@ -131,10 +159,11 @@ def main():
         for line in fi:
             case = json.loads(line)
             try:
-                tr = run_case(case)
+                trs = run_case(case)
             except OverflowError as ex:
-                tr = dict(id=case['id'], skipped=str(ex))
-            fo.write(json.dumps(tr) + '\n')
+                trs = [dict(id=case['id'], skipped=str(ex))]
+            for tr in trs:
+                fo.write(json.dumps(tr) + '\n')
 
 
 if __name__ == '__main__':
